@@ -155,7 +155,7 @@ func genSSCMode(rng *core.Rng) sscMode {
 
 var lenBand = []int{0, 1, 2, 6, 7, 8, 9, 14, 15, 16, 17, 23, 24, 31, 32, 33, 100, 223, 231, 239, 240, 247, 248, 253, 254, 255, 256, 257, 300, 1000}
 
-var swSet = []uint16{0x9000, 0x9000, 0x9000, 0x6282, 0x6283, 0x6300, 0x6700, 0x6982, 0x6985, 0x6986, 0x6987, 0x6988, 0x6A80, 0x6A82, 0x6A86, 0x6A88, 0x6B00, 0x6D00, 0x6E00, 0x6F00, 0x6100, 0x63C2, 0x0000, 0xFFFF}
+var swSet = []uint16{0x9000, 0x9000, 0x9000, 0x6282, 0x6283, 0x6300, 0x6700, 0x6982, 0x6985, 0x6986, 0x6987, 0x6988, 0x6A80, 0x6A82, 0x6A86, 0x6A88, 0x6B00, 0x6D00, 0x6E00, 0x6F00, 0x6100, 0x63C2, 0x0000, 0xFFFF, 0x6C00, 0x6C10, 0x6CFF, 0x61FF, 0x6281, 0x9001}
 
 // ------------------------------------------------------------------ C03: responses
 
@@ -182,7 +182,7 @@ func (SMRespEngine) Decode(raw json.RawMessage) (any, error) {
 	return c, err
 }
 
-var respAttacks = []string{"naked-then-stale", "extra-do", "mac-short", "forged-short-mac", "naked-replay", "status-both", "splice-do87", "mac-tail", "bitflip", "bytesub", "truncate", "do_drop", "do_dup", "do_reorder", "do_nonminimal_len", "sw_mismatch",
+var respAttacks = []string{"naked-then-stale", "extra-do", "no-do99", "mac-short", "forged-short-mac", "naked-replay", "status-both", "splice-do87", "mac-tail", "bitflip", "bytesub", "truncate", "do_drop", "do_dup", "do_reorder", "do_nonminimal_len", "sw_mismatch",
 	"replay", "future", "cross_session", "plaintext", "bare_status", "random", "append", "wrong_ssc_rewrap", "strip_mac", "empty"}
 
 func (SMRespEngine) Gen(prop, tier string, seed uint64, yield func(c any) bool) {
@@ -377,6 +377,20 @@ func (SMRespEngine) Run(prop string, ci any) *core.Outcome {
 				dec(o.SSC)
 			}
 			forged = o.Wrap(0xB0, script[k].data, script[k].sw)
+		case "no-do99":
+			// right keys, right counter, valid MAC - but the status was left out of the MAC input (no DO'99'), so the
+			// trailer status is not authenticated; delivered with the genuine or with another trailer status
+			o := cs.Clone()
+			dec(o.SSC)
+			o.OmitDO99 = true
+			forged = o.Wrap(0xB0, script[k].data, script[k].sw)
+			if c.A%2 == 1 {
+				ns := swSet[c.B%len(swSet)]
+				if ns == script[k].sw {
+					ns ^= 0x0300
+				}
+				forged[len(forged)-2], forged[len(forged)-1] = byte(ns>>8), byte(ns)
+			}
 		case "plaintext":
 			forged = append(bytes.Clone(script[k].data), byte(script[k].sw>>8), byte(script[k].sw))
 			if c.B%2 == 0 {
@@ -829,7 +843,9 @@ func (SMCmdEngine) Run(prop string, ci any) *core.Outcome {
 		spec := genCmd(rng, c.Profile, k == bigAt)
 		sigBase := fmt.Sprintf("%s", c.Suite)
 		before := card.n
-		cmd := iso7816.NewCApdu(0x00, spec.ins, spec.p1, spec.p2, spec.data, spec.le)
+		// plain class byte: mostly 00, sometimes command chaining (10), a logical channel (01) or proprietary (80)
+		plainCLA := core.Pick(rng, []int{0, 0, 0, 0, 0, 0, 0x10, 0x01, 0x80, 0x04})
+		cmd := iso7816.NewCApdu(byte(plainCLA), spec.ins, spec.p1, spec.p2, spec.data, spec.le)
 		var r *iso7816.RApdu
 		var e error
 		var pan any
